@@ -469,6 +469,156 @@ def decode_loop(ctx):
                                 "poison_configurations": [list(p) for p in LOOP_CONFIGS], "batches": nb}
 
 
+# ---------------------------------------------------------------------------------------------------------------------
+# The viewer (streamer/screen.py): cursor / paging / lock state machine and what update() draws.  Outside the listed
+# properties: deviations are MODEL-DRIFT; what TLC establishes about the design is recorded as an observation.
+def _screen_cfg(h, ids, fixed, tables="{}", probe=1, extra=""):
+    return ("SPECIFICATION Spec\nCONSTANTS\n  H = %d\n  Ids = {%s}\n  FixedTable = %s\n  Probe = %d\n  Tables = %s\n"
+            "INVARIANT TypeOK\nINVARIANT ShownSlice\nINVARIANT OffsetInTable\nPROPERTY LockHighlight\nCHECK_DEADLOCK FALSE\n" % (
+                h, ", ".join(map(str, ids)), "TRUE" if fixed else "FALSE", probe, tables)) + extra
+
+
+SCREEN_TABLES = "{{}, {1,2}, {1,2,3,4,5,6,7}, {1,2,3,4,5,6,7,8,9,10}, {2,3,4,5,6,7,8,9,10,11,12}, {1,2,3,4,5,6,7,8,9,10,11,12}, {2,3,4,5,6,7,8,9,10,11,12,13,14}, {1,2,3,4,5,6,7,8,9,10,11,12,13,14}}"
+
+
+def viewer(ctx):
+    import glob
+    import shutil
+    from .. import tlaval
+    ids14 = list(range(1, 15))
+    # 11 / 12 aircraft bracket the PgDn condition (offset + 6 < len - 5) for a 10-line screen
+    configs = [("fixed10", 10, ids14, True, "{}"), ("fixed10_11", 10, ids14[:11], True, "{}"), ("fixed10_12", 10, ids14[:12], True, "{}"),
+               ("dyn10", 10, ids14, False, SCREEN_TABLES), ("fixed24", 24, list(range(1, 31)), True, "{}") if not ctx.quick else ("fixed16", 16, list(range(1, 23)), True, "{}")]
+    # A: the state machine itself
+    for name, h, ids, fixed, tables in configs:
+        ctx.model_check("ScreenSM", cfg_text=_screen_cfg(h, ids, fixed, tables), what="viewer %s" % name, timeout=3000)
+    # A, analysis: which aircraft can no sequence of keys bring onto the screen?  NeverShownProbe holds exactly for those.
+    h, n = 10, 14
+    hidden = []
+    for i in ids14:
+        r = tlc.run("ScreenSM", cfg_text=_screen_cfg(h, ids14, True, "{}", probe=i, extra="INVARIANT NeverShownProbe\n"), workers=1, timeout=600)
+        if r.invariant_violated == "NeverShownProbe":
+            continue
+        tlc.require_ok(r, "viewer paging probe %d" % i)
+        hidden.append(i)
+        ctx.states += r.distinct
+    page, o, seen = h - 4, 0, set()
+    while True:
+        seen |= set(range(o + 1, min(n, o + h - 6) + 1))
+        if o + page + 5 < n:
+            o += page
+        else:
+            break
+    if hidden != [i for i in ids14 if i not in seen] or not hidden or len(hidden) == len(ids14):
+        raise tlc.MachineryError("viewer paging analysis: TLC says %r, the closed form says %r" % (hidden, [i for i in ids14 if i not in seen]))
+    r = tlc.run("ScreenSM", cfg_text=_screen_cfg(10, ids14, False, SCREEN_TABLES, extra="INVARIANT ShowsSomething\n"), workers=4, timeout=600)
+    if r.invariant_violated != "ShowsSomething":
+        raise tlc.MachineryError("viewer: the stale-offset counterexample is not reachable\n" + r.out[-1200:])
+    ctx.extra["viewer_design_observations"] = {
+        "aircraft_no_key_sequence_can_display (H=10 lines, 14 aircraft, sorted positions)": hidden,
+        "why": "a page shows H-6 rows but PgDn advances by H-4 and refuses to move unless offset+H-4 < len-5",
+        "stale_offset_blank_screen_reachable": True}
+    # B: behaviours simulated by TLC (+ one schedule per sampled transition of the fixed-table graph) on the real Screen
+    V = []
+    asked = {}
+    for ci, (name, h, ids, fixed, tables) in enumerate(configs):
+        d = os.path.join(ctx.tmp, "scr%d" % ci)
+        os.makedirs(d, exist_ok=True)
+        r = tlc.run("ScreenSM", cfg_text=_screen_cfg(h, ids, fixed, tables), workers=1, timeout=1200,
+                    simulate="file=%s/tr,num=%d" % (d, ctx.pick(60, 500)), depth=ctx.pick(50, 120), seed=ctx.seed * 13 + ci)
+        tlc.require_ok(r, "viewer simulation %s" % name)
+        ctx.tlc_runs.append({"module": "ScreenSM", "role": "B", "mode": "simulate", "wall_s": round(r.wall, 2)})
+        for fn in sorted(glob.glob(d + "/tr_*")):
+            beh = tlaval.parse_sim(fn)
+            steps, exp = [], []
+            for lab, st in beh[1:]:
+                a = lab.split("(")[0]
+                asked[a] = asked.get(a, 0) + 1
+                step = {"a": a}
+                if a == "Table":
+                    step["acs"] = sorted(st["acs"][1])
+                steps.append(step)
+                rows = sorted(st["shown"])
+                exp.append({"y": st["y"], "offset": st["offset"], "lock": st["lock"], "shown": [st["shown"][r] for r in rows],
+                            "hl": [st["hl"][r] for r in rows]})
+            if steps:
+                V.append({"fn": "screen.run", "H": h, "steps": steps, "exp": exp, "cfg": ci, "init": ids if fixed else []})
+        if fixed and h == 10:
+            dot = os.path.join(d, "g.dot")
+            r = tlc.run("ScreenSM", cfg_text=_screen_cfg(h, ids, fixed, tables), workers=1, timeout=1200, extra=["-dump", "dot,actionlabels", dot])
+            tlc.require_ok(r, "viewer state graph")
+            init, edges = _parse_dot(dot)
+            scheds = _edge_cover(init, edges, ctx.rng, 3)
+            ctx.rng.shuffle(scheds)
+            for sched in scheds[:ctx.pick(600, 6000)]:
+                V.append({"fn": "screen.run", "H": h, "steps": [{"a": a} for a in sched], "cfg": ci, "init": ids})
+        shutil.rmtree(d, ignore_errors=True)
+    missing = [a for a in ("Home", "Down", "Up", "NPage", "PPage", "Enter", "Esc", "Table", "Render") if not asked.get(a)]
+    if missing:
+        raise tlc.MachineryError("viewer: actions never scheduled: %s" % missing)
+    ev = ctx.replay(V)
+    bad_b, lines, nact = set(), {ci: [] for ci in range(len(configs))}, 0
+    for e in ev:
+        got = e["res"]["v"]
+        if len(got) != len(e["steps"]) or e["res"].get("err"):
+            bad_b.add(e["id"])
+        if "exp" in e:
+            for x, want in zip(got, e["exp"]):
+                if any(x.get(k) != want[k] for k in want):
+                    bad_b.add(e["id"])
+                    break
+        L = lines[e["cfg"]]
+        L.append({"ev": "start", "run": e["id"], "id": e["id"] * 1000})
+        for k, (x, stp) in enumerate(zip(got, e["steps"])):
+            L.append({"ev": "act", "run": e["id"], "id": e["id"] * 1000 + k + 1, "a": x["a"], "acs": stp.get("acs", []), "y": x["y"],
+                      "offset": x["offset"], "lock": x["lock"], "shown": x["shown"], "hl": x["hl"]})
+            nact += 1
+    # C: TLC validates every recorded step against the ScreenSM actions
+    bad_c = {}
+
+    def one(ci):
+        L = lines[ci]
+        if not L:
+            return None
+        name, h, ids, fixed, tables = configs[ci]
+        fn = os.path.join(ctx.tmp, "scr_%d.ndjson" % ci)
+        with open(fn, "w") as f:
+            for x in L:
+                f.write(json.dumps(x, separators=(",", ":")) + "\n")
+        cfg = ("INIT TInit\nNEXT TNext\nPOSTCONDITION TDone\nCHECK_DEADLOCK FALSE\nCONSTANTS\n  H = %d\n  Ids = {%s}\n  FixedTable = %s\n"
+               "  Probe = 1\n  Tables = {}\n" % (h, ", ".join(map(str, ids)), "TRUE" if fixed else "FALSE"))
+        r = tlc.run("Trace_Screen", cfg_text=cfg, workers=1, env={"TRACE_FILE": fn}, timeout=3000)
+        os.unlink(fn)
+        return r, len(L)
+
+    with cf.ThreadPoolExecutor(max_workers=len(configs)) as ex:
+        for res in ex.map(one, range(len(configs))):
+            if res is None:
+                continue
+            r, n = res
+            if not r.ok:
+                raise tlc.MachineryError("Trace_Screen failed\n%s" % (r.error_text or r.out[-3000:]))
+            done = [x for x in r.prints if x[0] == "DONE"]
+            if not done or done[-1][1] != n or done[-1][2] - 1 != n:
+                raise tlc.MachineryError("viewer trace not fully consumed %r vs %d" % (done, n))
+            rej = [x for x in r.prints if x[0] == "REJECT"]
+            if len(rej) != done[-1][3]:
+                raise tlc.MachineryError("REJECT count mismatch (viewer)")
+            for x in rej:
+                bad_c.setdefault(x[1] // 1000, x[2])
+            ctx.states += r.distinct
+            ctx.transitions += r.generated
+            ctx.tlc_runs.append({"module": "Trace_Screen", "role": "C", "events": n, "rejected": len(rej), "wall_s": round(r.wall, 2)})
+    for i in sorted(bad_b - set(bad_c)):
+        bad_c[i] = "screen_state_differs_from_simulated_behaviour"
+    ctx.validated += nact
+    ctx.drift_kinds = getattr(ctx, "drift_kinds", {})
+    for i, why in bad_c.items():
+        ctx.drift += 1
+        ctx.drift_kinds["drift:viewer_" + why] = ctx.drift_kinds.get("drift:viewer_" + why, 0) + 1
+    ctx.extra["viewer"] = {"runs": len(ev), "steps_validated": nact, "actions_scheduled": asked, "runs_deviating": len(bad_c)}
+
+
 def run(ctx):
     ctx.rule = ("model: all interleavings of {tick 0.5/9.5/10.5/61.5/181 s, position squitter (either parity), other squitter, "
                 "Comm-B reply (known / unknown address), take-off/landing, process} for 2 aircraft from 6 start places to depth 6/7; "
@@ -498,6 +648,7 @@ def run(ctx):
     ctx.samples.append({"rx": e0["rx"], "lower": e0["lower"], "first_call": e0["script"][0], "table_after": e0["res"]["v"][0] if e0["res"].get("v") else None})
     judge_runs(ctx, validate_runs(ctx, ev))
     decode_loop(ctx)
+    viewer(ctx)
 
 
 def replay(ctx, path):
